@@ -32,6 +32,7 @@
 (*   3. AddRecord a = inp.newrow[1], b = inp.newrow[2]     add_ok, s3        *)
 (*   4. set X's formula to `$a * 3`               fix_ok, s4                 *)
 (*   elsewhere = number of error cells in tables other than T (after 2..4)   *)
+(*   consistent = Engine.assert_schema_consistent() held after 2, 3 and 4    *)
 (*   py = Python's own result of the text (rec. spelling) per row            *)
 (***************************************************************************)
 EXTENDS Predicate
@@ -160,7 +161,8 @@ Meaning(inp, out, E) == ~HasTree(inp) \/ (out.f_ok /\ ColIs(out.s1.F, E.f, E.n))
 PyAgreesE(inp, out, E) == ~HasTree(inp) \/ ColIs(out.py, E.f, E.n)
 
 \* C19.ok: the bundle that sets X's formula succeeds - or it is rejected and nothing changed
-BundleOk(inp, out) == out.x_ok \/ (out.same /\ out.s2 = out.s1)
+\* (and the engine's own schema consistency assertion holds after steps 2, 3 and 4)
+BundleOk(inp, out) == (out.x_ok \/ (out.same /\ out.s2 = out.s1)) /\ out.consistent
 
 \* C19.others: G, H, K (and F) keep their correct values in every later snapshot
 KnownOk(s, E, n) ==
@@ -223,7 +225,7 @@ Ref(inp, accepted) ==
       s3 |-> Snap(E, E.m, Fill(E.m, IF accepted THEN Err ELSE VInt(1))),
       fix_ok |-> TRUE, fix_exc |-> "",
       s4 |-> Snap(E, E.m, E.fix),
-      elsewhere |-> 0]
+      elsewhere |-> 0, consistent |-> TRUE]
 
 \* values of the bounded model stay inside the value universe
 IsCell(v) ==
